@@ -931,6 +931,7 @@ class RecordLayer(object):
                 # when we're in the early handshake, then unencrypted alerts
                 # are fine too
                 elif self._is_tls13_plus() and \
+                        not self.handshake_finished and \
                         header.type == ContentType.alert and \
                         len(data) < 3 and \
                         self._readState and \
